@@ -485,3 +485,38 @@ func PlantLateCaptive(t *rapid.T, cfg *Config) bool {
 	cfg.PreBuild = p.b
 	return true
 }
+
+// PlantNilMember adds a group of its own (interface element type I0, group name "gn") whose
+// members are a transient service followed by a result-object field its constructor always leaves
+// nil, and a consumer that takes the group through a parameter-object field. Members that are
+// nil are left open by the statements; the members around them are judged like any others.
+func PlantNilMember(t *rapid.T, cfg *Config) bool {
+	nid := 0
+	for _, r := range cfg.Regs {
+		if r.ID >= nid {
+			nid = r.ID + 1
+		}
+		for _, p := range r.AllProvides() {
+			if p.Ident.Group == "gn" {
+				return false
+			}
+		}
+	}
+	life := rapid.SampledFrom([]int{Transient, Transient, Scoped}).Draw(t, "nilMemberFirstLife")
+	first := Reg{ID: nid, Life: life, Form: FormPlain, Outs: []OutSpec{{T: TI0, Impl: rapid.SampledFrom([]int{0, NumD}).Draw(t, "nilMemberImpl")}}, Group: "gn"}
+	// a result object: one real output of a type nobody else needs under this name, one group field left nil
+	second := Reg{ID: nid + 1, Life: rapid.SampledFrom([]int{Transient, Scoped}).Draw(t, "nilMemberSecondLife"), Form: FormOut,
+		Outs: []OutSpec{{T: NumD + 3, Impl: NumD + 3, Key: "gn-carrier"}, {T: TI0, Impl: 0, Group: "gn", Nil: true}}}
+	regs := []Reg{first, second}
+	if rapid.Bool().Draw(t, "nilMemberThird") {
+		regs = append(regs, Reg{ID: nid + 2, Life: Transient, Form: FormPlain, Outs: []OutSpec{{T: TI0, Impl: NumD}}, Group: "gn"})
+	}
+	consumer := Reg{ID: nid + 3, Life: rapid.SampledFrom([]int{Transient, Scoped}).Draw(t, "nilMemberConsumerLife"), Form: FormPlain,
+		Outs: []OutSpec{{T: NumD + 4, Impl: NumD + 4}}, Name: "gn-consumer", Deps: []DepSpec{{T: TI0, Group: "gn"}}, UseIn: true}
+	cfg.Regs = append(cfg.Regs, append(regs, consumer)...)
+	if _, err := NewModel(cfg); err != nil {
+		cfg.Regs = cfg.Regs[:len(cfg.Regs)-len(regs)-1]
+		return false
+	}
+	return true
+}
